@@ -1698,6 +1698,8 @@ def create_poisson_evolution_joint(taxa, arg):
         "type": "JointDistributionModel",
         "distributions": joint_list,
     }
+    # the priors are listed in the joint directly: there is no `prior` object
+    arg._has_prior = False
     return joint_dic
 
 
@@ -1736,6 +1738,8 @@ def create_evolution_joint(taxa, alignment, arg):
 
     if len(prior_dic["distributions"]) > 0:
         joint_dic["distributions"].append(prior_dic)
+    # loggers only list the `prior` object when it exists
+    arg._has_prior = len(prior_dic["distributions"]) > 0
 
     return joint_dic
 
